@@ -317,6 +317,7 @@ def decode (bytes : List Nat) : Except String Result := Id.run do
   -- progression state: per component and coefficient, last Al sent (or none)
   let mut prog : Array (Array (Option Nat)) := #[]
   let mut sawEOI := false
+  let mut saw16 := false
   let mut fuel := bs.size + 10
   while fuel > 0 do
     fuel := fuel - 1
@@ -349,8 +350,9 @@ def decode (bytes : List Nat) : Except String Result := Id.run do
           let v := if pq == 1 then u16 bs (q + 1 + 2 * k) else bs.getD (q + 1 + k) 0
           if v == 0 then return .error "DQT: zero quantiser"
           t := t.setIfInBounds (Gen.naturalOrder.getD k 0) v
-        if pq == 1 && (frame.map (·.prec)).getD 12 == 8 && (frame.map (·.sof)).getD 0xC1 == 0xC0 then
-          return .error "DQT: 16-bit table in a baseline frame"
+        if pq == 1 then saw16 := true
+        if pq == 1 && (frame.map (·.sof)).getD 0xC1 == 0xC0 then
+          return .error "DQT: 16-bit table (Pq=1) in a baseline (SOF0) frame"
         tabs := { tabs with qt := tabs.qt.setIfInBounds tq (some t.toList) }
         q := q + 1 + sz
     else if m == 0xC4 then
@@ -389,6 +391,7 @@ def decode (bytes : List Nat) : Except String Result := Id.run do
         if comps.any (fun d => d.id == c.id) then return .error "SOF: duplicate component id"
         comps := comps.push c
       if m == 0xC0 && prec != 8 then return .error "SOF0 with precision other than 8"
+      if m == 0xC0 && saw16 then return .error "SOF0 (baseline) after a 16-bit quantisation table (Pq=1)"
       if (m == 0xC1 || m == 0xC2 || m == 0xC9 || m == 0xCA) && prec != 8 && prec != 12 then return .error "DCT frame with precision other than 8/12"
       if m ≥ 0xC9 then arith := true
       hmax := comps.foldl (fun a c => max a c.h) 1
